@@ -148,7 +148,9 @@ func (r *NetconfResponse) checkFailed(b []byte) {
 func (r *NetconfResponse) record1dot0() {
 	b := r.RawResult
 
-	b = bytes.TrimPrefix(b, []byte(xmlHeader))
+	// trim space before trimming the xml header too: what we read may start with a newline (ours,
+	// echoed back by the transport, or one the server sent after the previous message)
+	b = bytes.TrimPrefix(bytes.TrimSpace(b), []byte(xmlHeader))
 	// trim space before trimming suffix because we usually have a trailing newline!
 	b = bytes.TrimSuffix(bytes.TrimSpace(b), []byte(v1Dot0Delim))
 
